@@ -9,15 +9,17 @@
 (*     other (chain, contract) pair;                                                                     *)
 (*   - the configuration proposals, gifts by transaction and by keeper, time to the quarters of a        *)
 (*     client's vesting window and beyond its end.                                                       *)
-(* Two starting points: the unconfigured genesis, and genesis followed by the three configuration        *)
+(* Licences are paid in the bond denom or in a second, genesis-funded denom (direct licences only).        *)
+(* Starting points: the unconfigured genesis, and genesis followed by the three configuration        *)
 (* proposals (funders <<rich, poor>> - the code picks the LAST one that can pay -, fee granter, contract  *)
 (* 1 on chain 1), which the driver executes as ordinary steps.                                           *)
 EXTENDS LightNode, Json
 CONSTANTS EmitAt, MaxOps
 VARIABLE hist
 
-FundsReal == <<3000000, 500000, 2000000>>
-FundsSmall == <<3, 0, 2>>
+\* <<bond denom, other denom>> per user
+FundsSmall == << <<3, 1>>, <<0, 2>>, <<2, 0>> >>
+OtherDenom == CHOOSE d \in Denoms : d # Bond
 MinOf(S) == CHOOSE x \in S : \A y \in S : x <= y
 MaxOf(S) == CHOOSE x \in S : \A y \in S : x >= y
 Rich == 1
@@ -26,8 +28,9 @@ F1 == MinOf(Fresh)
 F2 == MaxOf(Fresh)
 OneAmt == MinOf(Amounts \ {0})
 
-GLic == \/ \E who \in Users, c \in Addrs, amt \in Amounts : AddLicense(who, who, c, amt, IF amt = OneAmt THEN MinOf(Months) ELSE MaxOf(Months))
-        \/ AddLicense(Poor, Rich, F2, OneAmt, MinOf(Months))
+GLic == \/ \E who \in Users, c \in Addrs, amt \in Amounts, d \in Denoms :
+              (d = Bond \/ c \in Fresh) /\ AddLicense(who, who, c, amt, IF amt = OneAmt THEN MinOf(Months) ELSE MaxOf(Months), d)
+        \/ AddLicense(Poor, Rich, F2, OneAmt, MinOf(Months), Bond)
 GSign == \/ \E who \in Signers : Register(who, who) \/ Auth(who, who)
          \/ \E c \in DOMAIN lic : Register(HasAcct, c) \/ Register(CHOOSE x \in Fresh : x # c, c)
          \/ \E c \in clients : Auth(HasAcct, c)
@@ -41,32 +44,47 @@ GAdv == \E c \in DOMAIN vest, q \in {1, 2, 4, 5} : Advance(c, q)
 
 GAct == GLic \/ GSign \/ GSale \/ GCfg \/ GGift \/ GAdv
 
-Step(r) == [act |-> r.act, args |-> [who |-> r.who, as |-> r.as, c |-> r.c, amt |-> r.amt, m |-> r.m, ch |-> r.ch, k |-> r.k, q |-> r.q, via |-> r.via]]
+Step(r) == [act |-> r.act, args |-> [who |-> r.who, as |-> r.as, c |-> r.c, amt |-> r.amt, m |-> r.m, ch |-> r.ch, k |-> r.k, q |-> r.q, via |-> r.via, d |-> r.d]]
 GInit == Init /\ hist = <<>>
 \* genesis + the three proposals
-CfgPrefix == << Step(Rec("SetFunders", Rich, Poor, 0, 0, 0, 0, 0, 0, "")), Step(Rec("SetFeegranter", 0, 0, 0, 0, 0, 0, 0, 0, "")),
-                Step(Rec("SetSale", 0, 0, 0, 0, 0, 1, 1, 0, "")) >>
-GInitCfg == /\ escrow = 0 /\ lic = [c \in {} |-> 0]
+CfgPrefix == << Step(Rec("SetFunders", Rich, Poor, 0, 0, 0, 0, 0, 0, "", 0)), Step(Rec("SetFeegranter", 0, 0, 0, 0, 0, 0, 0, 0, "", 0)),
+                Step(Rec("SetSale", 0, 0, 0, 0, 0, 1, 1, 0, "", 0)) >>
+UserBal == [a \in Users \cup Fresh |-> IF a \in Users THEN [d \in Denoms |-> Funds[a][d]] ELSE ZeroD]
+GInitCfg == /\ escrow = ZeroD /\ lic = [c \in {} |-> 0]
             /\ acct = [c \in Fresh |-> "none"] /\ vest = [c \in {} |-> 0]
-            /\ bal = [a \in Users \cup Fresh |-> IF a \in Users THEN Funds[a] ELSE 0]
+            /\ bal = UserBal
             /\ clients = {} /\ grants = {}
             /\ funders = <<Rich, Poor>> /\ feegr = TRUE /\ sale = [ch \in SaleChains |-> IF ch = 1 THEN 1 ELSE 0]
-            /\ gifts = 0 /\ now = 0
-            /\ res = "ok" /\ last = Rec("SetSale", 0, 0, 0, 0, 0, 1, 1, 0, "") /\ nops = 0
+            /\ gifts = ZeroD /\ now = 0
+            /\ res = "ok" /\ last = Rec("SetSale", 0, 0, 0, 0, 0, 1, 1, 0, "", 0) /\ nops = 0
             /\ hist = CfgPrefix
 \* genesis + the proposals + a sold and activated licence of the first client (vesting has started)
-VestPrefix == CfgPrefix \o << Step(Rec("Sale", 0, 0, F1, MaxOf(Amounts), 0, 1, 1, 0, "")), Step(Rec("Register", F1, F1, 0, 0, 0, 0, 0, 0, "")) >>
+VestPrefix == CfgPrefix \o << Step(Rec("Sale", 0, 0, F1, MaxOf(Amounts), 0, 1, 1, 0, "", Bond)), Step(Rec("Register", F1, F1, 0, 0, 0, 0, 0, 0, "", 0)) >>
 GInitVest == LET amt == MaxOf(Amounts) * Unit IN
-            /\ escrow = 0 /\ lic = [c \in {} |-> 0]
+            /\ escrow = ZeroD /\ lic = [c \in {} |-> 0]
             /\ acct = [c \in Fresh |-> IF c = F1 THEN "vesting" ELSE "none"]
-            /\ vest = [c \in {F1} |-> [start |-> 0, end |-> Period(SaleMonths), orig |-> amt]]
-            /\ bal = [a \in Users \cup Fresh |-> IF a = Rich THEN Funds[a] - amt ELSE IF a \in Users THEN Funds[a] ELSE IF a = F1 THEN amt ELSE 0]
+            /\ vest = [c \in {F1} |-> [start |-> 0, end |-> Period(SaleMonths), orig |-> amt, den |-> Bond]]
+            /\ bal = [UserBal EXCEPT ![Rich][Bond] = @ - amt, ![F1][Bond] = amt]
             /\ clients = {F1} /\ grants = {F1}
             /\ funders = <<Rich, Poor>> /\ feegr = TRUE /\ sale = [ch \in SaleChains |-> IF ch = 1 THEN 1 ELSE 0]
-            /\ gifts = 0 /\ now = 0
-            /\ res = "ok" /\ last = Rec("Register", F1, F1, 0, 0, 0, 0, 0, 0, "") /\ nops = 0
+            /\ gifts = ZeroD /\ now = 0
+            /\ res = "ok" /\ last = Rec("Register", F1, F1, 0, 0, 0, 0, 0, 0, "", 0) /\ nops = 0
             /\ hist = VestPrefix
-GInit2 == GInit \/ GInitCfg \/ GInitVest
+\* genesis + two pending licences in DIFFERENT denominations (bond denom paid by the rich user, the other denom by the
+\* user who holds it): whichever activates must be paid in its own coin, the other one's escrow stays whole
+TwoPrefix == << Step(Rec("AddLicense", Rich, Rich, F1, OneAmt, MinOf(Months), 0, 0, 0, "", Bond)),
+                Step(Rec("AddLicense", Poor, Poor, F2, OneAmt, MinOf(Months), 0, 0, 0, "", OtherDenom)) >>
+GInitTwo == LET amt == OneAmt * Unit IN
+            /\ escrow = [d \in Denoms |-> IF d \in {Bond, OtherDenom} THEN amt ELSE 0]
+            /\ lic = [c \in Fresh |-> [amt |-> amt, months |-> MinOf(Months), den |-> IF c = F1 THEN Bond ELSE OtherDenom]]
+            /\ acct = [c \in Fresh |-> "base"] /\ vest = [c \in {} |-> 0]
+            /\ bal = [UserBal EXCEPT ![Rich][Bond] = @ - amt, ![Poor][OtherDenom] = @ - amt]
+            /\ clients = {} /\ grants = {}
+            /\ funders = <<>> /\ feegr = FALSE /\ sale = [ch \in SaleChains |-> 0]
+            /\ gifts = ZeroD /\ now = 0
+            /\ res = "ok" /\ last = Rec("AddLicense", Poor, Poor, F2, OneAmt, MinOf(Months), 0, 0, 0, "", OtherDenom) /\ nops = 0
+            /\ hist = TwoPrefix
+GInit2 == GInit \/ GInitCfg \/ GInitVest \/ GInitTwo
 
 GView == <<last, res, svars>>
 GConstr == nops <= MaxOps
@@ -78,7 +96,8 @@ GNextCS == (IF EmitCond THEN PrintT(<<"HIST", ToJson(hist)>>) ELSE TRUE)
           /\ (GSale \/ GSign \/ GAdv \/ GCfg) /\ hist' = Append(hist, Step(last'))
 \* cover from the vesting start: time, the other client's direct licence and activation, authentication
 GNextCV == (IF EmitCond THEN PrintT(<<"HIST", ToJson(hist)>>) ELSE TRUE)
-          /\ (GAdv \/ GSign \/ \E who \in {Rich, HasAcct}, m \in Months : AddLicense(who, who, F2, OneAmt, m))
+          /\ (GAdv \/ GSign \/ (\E who \in {Rich, HasAcct}, m \in Months : AddLicense(who, who, F2, OneAmt, m, Bond))
+                            \/ (\E payer \in {Rich, Poor} : AddLicense(payer, payer, F2, OneAmt, MinOf(Months), OtherDenom)))
           /\ hist' = Append(hist, Step(last'))
 GNextS == (IF nops = EmitAt THEN PrintT(<<"HIST", ToJson(hist)>>) ELSE TRUE)
           /\ GAct /\ hist' = Append(hist, Step(last'))
